@@ -133,6 +133,8 @@ def job_mount(job) -> report.JobResult:
     out: Dict[str, Any] = {}
     from engine.symseq import SSeq
     SSeq.NORMALIZE = False  # keep remainders as proxies: the code calls path.startswith(prefix + "/") on them
+    # prefixes AND path are proxies here, so a lookup table keyed by prefix (dict/set) is decided by solver-forked __eq__
+    SSeq.CONST_HASH = True
 
     def fn():
         a, b = Recorder("a"), Recorder("b")
@@ -263,6 +265,8 @@ HOST_TABLES = [
     [r".*\.io", r"a\.io"],
     [r"[a-c]+", r"a.c"],
     [r"", r"a"],
+    [r"(w\.)?a\.io", r"b\.io", r"c\.io"],  # a capturing group in a non-last entry (group numbering must not leak into dispatch)
+    [r"l(:\d+)?", r"(a|b)c", r"d"],
 ]
 
 
